@@ -35,7 +35,11 @@ RULE = (
     'equals the fault-free reference. Convergence: once public-DB locks stop,'
     ' after one more process_queued_ops()+recover_pub_from_pri() round the '
     'public dump equals the private dump (or the retry counter is still '
-    'counting towards the copy-recovery threshold). Distinct = distinct '
+    'counting towards the copy-recovery threshold). Public locks come in two '
+    'kinds, seeded per pattern: every statement fails (a writer holds the '
+    'lock) or only the commit fails (a reader does). Threshold: with '
+    'MAX_TRIES lowered to K in 2..4, K locked writes in a row must end with '
+    'the private DB copied over the public one. Distinct = distinct '
     '(batch digest, fault position); non-trivial = the failed statement was '
     'not the first of its transaction (earlier statements had to be rolled '
     'back) or the public DB failed on one batch and recovered on a later one.')
@@ -48,7 +52,8 @@ TIERS = {
     'thorough': {'n': 3000, 'budget_s': 3000, 'chunk': 20},
 }
 EXPECTED_PROBES = ['pri_fail_mid_transaction', 'pri_crash_mid_transaction',
-                   'pub_fail_then_recover', 'pub_merged_retry']
+                   'pub_fail_then_recover', 'pub_merged_retry',
+                   'pub_locked_up_to_threshold']
 
 
 def make_params(seed, tier):
@@ -247,6 +252,9 @@ class Faults:
         self.pri_at = None      # statement index (1-based) within armed call
         self.pri_mode = 'error'
         self.pub_locked = False
+        # 'all': every statement fails (a writer holds the lock);
+        # 'commit': statements succeed, the commit fails (a reader does)
+        self.pub_mode = 'all'
         self.n_pri = 0
         self.n_pub = 0
         self.pri_ops = []
@@ -269,7 +277,7 @@ class Faults:
                 raise sqlite3.OperationalError('disk I/O error')
         elif kind == 'pub':
             self.n_pub += 1
-            if self.pub_locked:
+            if self.pub_locked and (self.pub_mode == 'all' or op == 'commit'):
                 raise sqlite3.OperationalError('database is locked')
 
 
@@ -379,6 +387,7 @@ def run(params):
             if not any(pat):
                 continue
             env, f = setup_env('pub')
+            f.pub_mode = rng.choice(['all', 'commit'])
             try:
                 window = []      # ops merged into the pending public retry
                 merged_tables = set()
@@ -419,6 +428,41 @@ def run(params):
                         'public_rows': {t: dq.get(t, [])[:4] for t in bad[:3]}},
                       ['merged_retry_runs_deletes_before_inserts'] if known else [])
             finally:
+                env.close()
+        # ---- recovery threshold: the public DB stays locked for MAX_TRIES
+        # writes in a row (MAX_TRIES lowered to K); the K-th failure must be
+        # answered by copying the private DB over the public one
+        for mode in ('all', 'commit'):
+            K = rng.randint(2, 4)
+            env, f = setup_env('thr')
+            f.pub_mode = mode
+            try:
+                env.mgr.pub_dao.MAX_TRIES = K
+                k = 0
+                for b in batches:
+                    apply_ops(env.mgr, b)
+                    f.pub_locked = True
+                    env.mgr.process_queued_ops()
+                    env.mgr.recover_pub_from_pri()
+                    k += 1
+                    if k == K:
+                        break
+                while k < K:
+                    # (fewer batches than K: further attempts, nothing new)
+                    env.mgr.process_queued_ops()
+                    env.mgr.recover_pub_from_pri()
+                    k += 1
+                evals += 1
+                dp, dq = dump(env.pri), dump(env.pub)
+                probe('pub_locked_up_to_threshold')
+                if dp != dq:
+                    bad = sorted(t for t in set(dp) | set(dq)
+                                 if dp.get(t) != dq.get(t))
+                    V('public_db_not_recovered_at_threshold', {
+                        'lock': mode, 'max_tries': K, 'tables': bad,
+                        'n_tries': env.mgr.pub_dao.n_tries})
+            finally:
+                f.pub_locked = False
                 env.close()
     finally:
         DBCTL.classify = orig_classify
